@@ -24,7 +24,8 @@
 //   <ret> C=<pending commit hex> I=<input hex> K=<caret> c=<composing>
 //   P=<preedit hex> pl= pc= ss= se= V=<commit preview hex>
 //   hm=<HasMenu> si=<selected_index of last segment|-> ps= pg= L= hl= n=
-//   T=<cand text hex,...> X=<cand comment hex,...> sk=<select keys hex> S=<status bits>
+//   T=<cand text hex,...> X=<cand comment hex,...> sk=<select keys hex>
+//   E=<cand end,...> ge=<end of last segment|-> cf=<commit text of the earlier segments hex> S=<status bits>
 #include <rime/composition.h>
 #include <rime/context.h>
 #include <rime/service.h>
@@ -120,6 +121,33 @@ static void observe(RimeApi* api, RimeSessionId sid, const std::string& ret) {
   for (int i = 0; i < c.menu.num_candidates; ++i) o << (i ? "," : "") << hx(c.menu.candidates[i].comment);
   if (c.menu.num_candidates == 0) o << "-";
   o << " sk=" << hx(c.menu.select_keys);
+  // ends of the displayed candidates, end of the last segment, commit text of the earlier segments (internals)
+  o << " E=";
+  if (c.menu.num_candidates == 0 || !ctx || ctx->composition().empty()) {
+    o << "-";
+  } else {
+    const rime::Segment& seg(ctx->composition().back());
+    size_t page_start = (size_t)c.menu.page_no * (size_t)c.menu.page_size;
+    for (int i = 0; i < c.menu.num_candidates; ++i) {
+      auto cand = seg.GetCandidateAt(page_start + i);
+      o << (i ? "," : "");
+      if (cand) o << cand->end(); else o << "?";
+    }
+  }
+  o << " ge=";
+  if (ctx && !ctx->composition().empty()) o << ctx->composition().back().end; else o << "-";
+  std::string confirmed;
+  if (ctx) {
+    const rime::Composition& comp(ctx->composition());
+    for (size_t i = 0; i + 1 < comp.size(); ++i) {
+      if (auto cand = comp[i].GetSelectedCandidate()) {
+        confirmed += cand->text();
+      } else if (!comp[i].HasTag("phony") && comp[i].start <= comp.input().size()) {
+        confirmed += comp.input().substr(comp[i].start, comp[i].end - comp[i].start);
+      }
+    }
+  }
+  o << " cf=" << hx(confirmed);
   o << " S=" << (st.is_composing ? 1 : 0) << (st.is_ascii_mode ? 1 : 0) << (st.is_full_shape ? 1 : 0)
     << (st.is_simplified ? 1 : 0) << (st.is_traditional ? 1 : 0) << (st.is_ascii_punct ? 1 : 0)
     << (st.is_disabled ? 1 : 0);
